@@ -255,6 +255,8 @@ class Scenario:
         elif k == "reuse":
             kw = dict(op[2]) if len(op) > 2 else {}
             old = self.holder.get("e")
+            if op[1] == "live":          # ask for exactly the number of workers currently registered
+                op = [op[0], max(1, len(getattr(old, "_processes", {}) or {}))] + list(op[2:])
             old_id = getattr(old, "executor_id", None)
             before = list(getattr(old, "_processes", {}) or {}) if old is not None else []
             live_before = [pid for pid, p in S.procs.items() if not p._dead]
